@@ -90,9 +90,6 @@ func NewMetricHandler(ctx context.Context, projectID, resourceType, resourceKeyV
 				return
 			case <-ticker.C:
 				handler.emitResponseCodeMetric()
-				handler.mu.Lock()
-				codeCount = make(map[string]int64)
-				handler.mu.Unlock()
 			}
 		}
 	}()
@@ -203,9 +200,19 @@ func (h *MetricHandler) WriteResponseCodeMetric(statusCode int) error {
 }
 
 // emitResponseCodeMetric emits observed response codes to cloud monarch once sample period is over
+//
+// The counts for the finished sample period are taken, and the counts for the
+// next period are started, in a single critical section. That way the map being
+// iterated over is never written to by WriteResponseCodeMetric, and no response
+// recorded while emitting is lost.
 func (h *MetricHandler) emitResponseCodeMetric() {
 	log.Printf("WriteResponseCodeMetric|attempting to write metrics at time: %v\n", time.Now())
-	for responseCode, count := range codeCount {
+	h.mu.Lock()
+	counts := codeCount
+	codeCount = make(map[string]int64)
+	h.mu.Unlock()
+
+	for responseCode, count := range counts {
 		responseClass := fmt.Sprintf("%sXX", responseCode[0:1])
 		metricLabels := map[string]string{
 			"response_code":       responseCode,
